@@ -188,14 +188,14 @@ func LoadKnown(root string) ([]KnownFinding, error) {
 	return k, nil
 }
 
-// loadKFCounts reads kf_counts.json: property -> tier -> finding id -> number of failing cases on the
-// unchanged tree (written by an authoring aid from committed evidence, never by a registered command).
-func loadKFCounts(root string) map[string]map[string]map[string]int {
-	b, err := os.ReadFile(filepath.Join(root, "kf_counts.json"))
+// loadKFCounts reads kf_counts/<property>.json (tier -> finding id -> number of failing cases on the
+// unchanged tree; written by an authoring aid from evidence, never by a registered command).
+func loadKFCounts(root, property string) map[string]map[string]int {
+	b, err := os.ReadFile(filepath.Join(root, "kf_counts", property+".json"))
 	if err != nil {
 		return nil
 	}
-	var m map[string]map[string]map[string]int
+	var m map[string]map[string]int
 	if json.Unmarshal(b, &m) != nil {
 		return nil
 	}
@@ -284,7 +284,7 @@ func (r *Run) Finish(rule string, assumptions []string) int {
 	// whatever else later falls into the same class. Enumeration is deterministic, so the number of
 	// failing cases per finding and tier is a constant of the unchanged tree; more than that means
 	// new failures hide behind the finding, and they are reported (fewer is never an alarm).
-	if bounds := loadKFCounts(r.Root)[r.Property][r.Tier]; bounds != nil {
+	if bounds := loadKFCounts(r.Root, r.Property)[r.Tier]; bounds != nil {
 		ids := make([]string, 0, len(matchedKF))
 		for id := range matchedKF {
 			ids = append(ids, id)
